@@ -29,8 +29,8 @@ CONFIGS = {
     "MC_Reuse_q": dict(CfgSet="TinyCfg", MaxOpens=2, Closers='{"A", "B"}', MaxHandles=2, MaxCtr=2),
     "MC_Reuse": dict(CfgSet="TinyCfg", MaxOpens=2, MaxWrites=1, Closers='{"A", "B"}', MaxHandles=2, MaxCtr=2),
     # C08: every end-of-connection cause at every reachable state
-    "MC_Teardown_q": dict(CfgSet="TinyCfg", MaxWrites=1, Faults='{"cutsrc", "endsrc", "cutsink"}', MuxDroppers='{"A", "B"}', MaxHandles=1, MaxCtr=1),
-    "MC_Teardown": dict(CfgSet="CloseCfgs", MaxWrites=2, Closers='{"A"}', Faults='{"cutsrc", "endsrc", "cutsink"}', MuxDroppers='{"A", "B"}', MaxHandles=1, MaxCtr=1),
+    "MC_Teardown_q": dict(CfgSet="TinyCfg", MaxWrites=1, Faults='{"cutsrc", "endsrc", "cutsink", "softcut"}', MuxDroppers='{"A", "B"}', MaxHandles=1, MaxCtr=1),
+    "MC_Teardown": dict(CfgSet="CloseCfgs", MaxWrites=2, Closers='{"A"}', Faults='{"cutsrc", "endsrc", "cutsink", "softcut"}', MuxDroppers='{"A", "B"}', MaxHandles=1, MaxCtr=1),
     # C11: datagram bursts against small buffers, interleaved with a stream
     "MC_Dgram_q": dict(CfgSet="DgCfgs", DgSenders='{"A"}', MaxDgrams=3, MaxCtr=3, MaxOpens=0),
     "MC_Dgram": dict(CfgSet="DgCfgs", DgSenders='{"A", "B"}', MaxDgrams=3, MaxWrites=1, MaxCtr=4, MaxOpens=1, MaxHandles=1),
